@@ -787,13 +787,77 @@ func ruleContextlessDelegates() check.Rule {
 	}
 }
 
+// BODY-TERMINATES: a synchronous creation operator ends what it started.
+func ruleBodyTerminates() check.Rule {
+	return check.Rule{
+		Name: "BODY-TERMINATES",
+		Doc:  "a subscribe closure that subscribes nothing, starts no goroutine or timer and does not block (Just, Range, FromSlice, Empty, Throw, Start, ...) sends a terminal notification to the destination on every path to its return (directly, deferred, or through a local closure that sends one): otherwise the observable emits its values and then stays open for ever",
+		Run: func(c *check.Ctx) {
+			m := c.M
+			n := 0
+			for _, sc := range m.SCs {
+				if len(sc.SubSites) > 0 || len(sc.Gos) > 0 || len(sc.Timers) > 0 || len(sc.Blocks) > 0 || len(sc.Unknown) > 0 {
+					continue
+				}
+				armed := c.Armed(sc)
+				onward := map[ast.Node]bool{}
+				deferredTerminal := false
+				for _, e := range sc.Emits {
+					if !e.ToDest || e.Kind == model.EmitNext {
+						continue
+					}
+					if e.Deferred && len(e.Stack) == 0 {
+						deferredTerminal = true
+					}
+					onward[e.Node] = true
+					for _, call := range e.Stack {
+						onward[call] = true
+					}
+				}
+				// handing the destination to another function (delegation) also counts
+				destObj := sc.Dest
+				n++
+				key := sc.String() + "/body-terminates"
+				pass := deferredTerminal || everyPathPasses(sc.Lit.Body, func(nd ast.Node) bool {
+					found := false
+					ast.Inspect(nd, func(x ast.Node) bool {
+						if onward[x] {
+							found = true
+						}
+						if l, ok := x.(*ast.FuncLit); ok && ast.Node(l) != nd {
+							return false
+						}
+						if call, ok := x.(*ast.CallExpr); ok && destObj != nil {
+							for _, a := range call.Args {
+								if id, ok := ast.Unparen(a).(*ast.Ident); ok && objOf(sc.Pkg.TypesInfo, id) == types.Object(destObj) {
+									found = true // the destination is handed on
+								}
+							}
+						}
+						return !found
+					})
+					return found
+				})
+				if pass {
+					if armed {
+						c.OK(key, sc.Lit.Pos(), "every path of the synchronous subscribe function ends with a terminal notification (or hands the destination on)")
+					}
+				} else {
+					c.Report(armed, key, sc.Lit.Pos(), "the subscribe function subscribes nothing, starts nothing and returns on some path without a terminal notification: the observable never ends")
+				}
+			}
+			c.Inc("synchronous_creation_closures", n)
+		},
+	}
+}
+
 func C04() *check.Property {
 	return &check.Property{
 		ID:       "C04",
 		Title:    "Each operator computes its documented function of the input sequence",
 		Patterns: cat(CorePatterns, PluginPkgs, []string{PromPkg}, RatePkgs),
 		Scope:    []string{ro},
-		Rules:    []check.Rule{ruleAdapter(), ruleAlias(), rulePipe(), ruleNoPostDeliveryMutation(), ruleDeadEmission(), ruleStateLevel(), ruleTerminalPropagation(), ruleObservableParamUsed(), ruleContextlessDelegates()},
+		Rules:    []check.Rule{ruleAdapter(), ruleAlias(), rulePipe(), ruleNoPostDeliveryMutation(), ruleDeadEmission(), ruleStateLevel(), ruleTerminalPropagation(), ruleObservableParamUsed(), ruleContextlessDelegates(), ruleBodyTerminates()},
 		Explanation: "Narrow structural claim. The values each operator computes are NOT decided (no executable specification of ~150 operators is derivable from the source). Four clauses of the property are visible in the code's shape and are decided: " +
 			"(ADAPTER) plain / indexed / context-aware variants that delegate through a literal are pure adapters — user function called once, only the adapter's own parameters passed, the right context returned — hence observationally identical to the base form; " +
 			"(ALIAS) aliases forward every parameter exactly once; (PIPE) the 50 typed PipeN/PipeOpN apply their operators in order, so a chain is the composition of its parts; " +
